@@ -272,5 +272,150 @@ theorem mem_ents_contract {T T1 : PT V} {dir : Nat → Bool} (hc : Crit T) (h : 
           · exact .inl he
           · exact .inr ⟨he, hne⟩
 
+/-! ### the nodes the deletion loops find -/
+
+/-- `(rp, r, n)` after the first loop, started with `rp, r` above the link to `T` -/
+def findEnd : PT V → Nat → Nat → (Nat → Bool) → Nat × Nat × Nat
+  | leaf i _ _, rp, r, _ => (rp, r, i)
+  | inner i bp l r', _, r, dir => if dir bp then findEnd r' r i dir else findEnd l r i dir
+
+/-- `np` after the second loop, which stops at the first link to node `n` -/
+def parentEnd : PT V → Nat → Nat → (Nat → Bool) → Nat
+  | leaf _ _ _, np, _, _ => np
+  | inner i bp l r, np, n, dir => if i = n then np else if dir bp then parentEnd r i n dir else parentEnd l i n dir
+
+/-- the link that has to be redirected to contract the parent of the removed leaf: (node, is-right-link, new target) -/
+def cutAt : PT V → Nat → Bool → (Nat → Bool) → Nat × Bool × Nat
+  | leaf i _ _, pi, sd, _ => (pi, sd, i)
+  | inner i bp l r, pi, sd, dir =>
+    if dir bp then
+      (match r with
+       | leaf _ _ _ => (pi, sd, idx l)
+       | inner _ _ _ _ => cutAt r i true dir)
+    else
+      (match l with
+       | leaf _ _ _ => (pi, sd, idx r)
+       | inner _ _ _ _ => cutAt l i false dir)
+
+theorem findEnd_n (T : PT V) (rp r : Nat) (dir : Nat → Bool) : (findEnd T rp r dir).2.2 = (descendD T dir).1 := by
+  induction T generalizing rp r with
+  | leaf => rfl
+  | inner i bp l r' ihl ihr => simp only [findEnd, descendD]; split <;> simp [ihl, ihr]
+
+/-- the referrer is the start node (for a leaf) or an inner node of the tree -/
+theorem findEnd_r (T : PT V) (rp r : Nat) (dir : Nat → Bool) :
+    ((∃ i k v, T = leaf i k v) ∧ (findEnd T rp r dir).2.1 = r ∧ (findEnd T rp r dir).1 = rp) ∨
+    ((∃ i bp l r', T = inner i bp l r') ∧ (findEnd T rp r dir).2.1 ∈ inners T ∧
+      ((findEnd T rp r dir).1 = r ∨ (findEnd T rp r dir).1 ∈ inners T)) := by
+  induction T generalizing rp r with
+  | leaf i k v => exact .inl ⟨⟨i, k, v, rfl⟩, rfl, rfl⟩
+  | inner i bp l r' ihl ihr =>
+    right
+    refine ⟨⟨i, bp, l, r', rfl⟩, ?_⟩
+    simp only [findEnd, inners]
+    split
+    · rcases ihr r i with ⟨_, h1, h2⟩ | ⟨_, h1, h2⟩
+      · rw [h1, h2]; simp
+      · constructor
+        · simp [h1]
+        · rcases h2 with h2 | h2
+          · rw [h2]; simp
+          · simp [h2]
+    · rcases ihl r i with ⟨_, h1, h2⟩ | ⟨_, h1, h2⟩
+      · rw [h1, h2]; simp
+      · constructor
+        · simp [h1]
+        · rcases h2 with h2 | h2
+          · rw [h2]; simp
+          · simp [h2]
+
+/-- contracting removes the referrer from the inner nodes and the leaf from the leaves -/
+theorem inners_contract_perm {T T1 : PT V} {dir : Nat → Bool} (h : contract T dir = some T1) (rp r : Nat) :
+    ((findEnd T rp r dir).2.1 :: inners T1).Perm (inners T) := by
+  induction T generalizing T1 rp r with
+  | leaf => simp [contract] at h
+  | inner i bp l r' ihl ihr =>
+    simp only [contract] at h
+    simp only [findEnd, inners]
+    cases hd : dir bp
+    · simp only [hd, Bool.false_eq_true, if_false] at h ⊢
+      split at h
+      · rename_i hnone
+        cases h
+        obtain ⟨j, k, v, rfl⟩ := (contract_none_iff l dir).mp hnone
+        simp [findEnd, inners]
+      · rename_i l' hl'
+        cases h
+        simp only [inners]
+        exact (List.Perm.swap _ _ _).trans (List.Perm.cons _ (List.Perm.append_right _ (ihl hl' r i)))
+    · simp only [hd, if_true] at h ⊢
+      split at h
+      · rename_i hnone
+        cases h
+        obtain ⟨j, k, v, rfl⟩ := (contract_none_iff r' dir).mp hnone
+        simp [findEnd, inners]
+      · rename_i r'' hr'
+        cases h
+        simp only [inners]
+        refine (List.Perm.swap _ _ _).trans (List.Perm.cons _ ?_)
+        exact (List.perm_middle.symm).trans (List.Perm.append_left _ (ihr hr' r i))
+
+theorem leafIdx_contract_perm {T T1 : PT V} {dir : Nat → Bool} (h : contract T dir = some T1) :
+    ((descendD T dir).1 :: leafIdx T1).Perm (leafIdx T) := by
+  induction T generalizing T1 with
+  | leaf => simp [contract] at h
+  | inner i bp l r' ihl ihr =>
+    simp only [contract] at h
+    simp only [descendD, leafIdx]
+    cases hd : dir bp
+    · simp only [hd, Bool.false_eq_true, if_false] at h ⊢
+      split at h
+      · rename_i hnone
+        cases h
+        obtain ⟨j, k, v, rfl⟩ := (contract_none_iff l dir).mp hnone
+        simp [descendD, leafIdx]
+      · rename_i l' hl'
+        cases h
+        simp only [leafIdx]
+        exact List.Perm.append_right _ (ihl hl')
+    · simp only [hd, if_true] at h ⊢
+      split at h
+      · rename_i hnone
+        cases h
+        obtain ⟨j, k, v, rfl⟩ := (contract_none_iff r' dir).mp hnone
+        simp only [descendD, leafIdx]
+        exact List.perm_append_comm (l₁ := [j])
+      · rename_i r'' hr'
+        cases h
+        simp only [leafIdx]
+        exact (List.perm_middle.symm).trans (List.Perm.append_left _ (ihr hr'))
+
+theorem length_ents_contract {T T1 : PT V} {dir : Nat → Bool} (h : contract T dir = some T1) :
+    (ents T1).length + 1 = (ents T).length := by
+  induction T generalizing T1 with
+  | leaf => simp [contract] at h
+  | inner i bp l r' ihl ihr =>
+    simp only [contract] at h
+    split at h
+    · split at h
+      · rename_i hnone
+        cases h
+        obtain ⟨j, k, v, rfl⟩ := (contract_none_iff r' dir).mp hnone
+        simp [ents]
+      · rename_i r'' hr'
+        cases h
+        have := ihr hr'
+        simp only [ents, List.length_append]; omega
+    · split at h
+      · rename_i hnone
+        cases h
+        obtain ⟨j, k, v, rfl⟩ := (contract_none_iff l dir).mp hnone
+        simp [ents]
+        try omega
+      · rename_i l' hl'
+        cases h
+        have := ihl hl'
+        simp only [ents, List.length_append]; omega
+
 end PT
 end AlgoVerif.C06
